@@ -41,6 +41,19 @@ Bad(e) ==
          THEN (IF e.out.ok /\ Strip(e.out.v) = Strip(e.inp) THEN {} ELSE {"s2nf-value"})
          ELSE (IF ~e.out.ok THEN {} ELSE {"s2nf-should-reject"})
     [] e.op = "olen" -> IF e.len = OrderLen(e.n) THEN {} ELSE {"orderlen"}
+    \* ---- behaviour beyond the listed property: other helpers and curve metadata
+    [] e.op = "i2s" ->      \* ecdsa.int_to_string: minimal big-endian bytes, one zero byte for 0
+         IF e.out.ok /\ e.out.v = (IF IsZero(e.v) THEN <<0>> ELSE Strip(e.v)) THEN {} ELSE {"int_to_string"}
+    [] e.op = "s2i" -> IF e.out.ok /\ Strip(e.out.v) = Strip(e.inp) THEN {} ELSE {"string_to_int"}
+    [] e.op = "crop" ->     \* number_to_string_crop: the value in at least OrderLen bytes, cut to the first OrderLen bytes
+         LET l == OrderLen(e.n) t == Strip(e.v) full == IF Len(t) < l THEN PadTo(t, l) ELSE t
+         IN  IF e.out.ok /\ e.out.v = SubSeq(full, 1, l) THEN {} ELSE {"number_to_string_crop"}
+    [] e.op = "e2b" ->      \* entropy_to_bits: the bytes as a string of 8 * len binary digits, most significant first
+         IF e.out.ok /\ Len(e.out.v) = 8 * Len(e.inp)
+            /\ \A j \in 1..Len(e.out.v) : e.out.v[j] = (e.inp[(j - 1) \div 8 + 1] \div Pow2[7 - ((j - 1) % 8)]) % 2
+         THEN {} ELSE {"entropy_to_bits"}
+    [] e.op = "meta" ->     \* Curve metadata derived from the order n and the field prime p
+         IF e.baselen = OrderLen(e.n) /\ e.vklen = 2 * OrderLen(e.p) /\ e.siglen = 2 * OrderLen(e.n) THEN {} ELSE {"curve-metadata"}
 
 Init == i = 1
 Next == /\ i <= Len(Trace)
